@@ -276,17 +276,37 @@ def r1_docstring_start(ctx):
 
 
 # ---------------------------------------------------------------------------
-def r2_first_frame(ctx):
+def r2_first_frame(ctx, rule='C08.R2'):
     rr = run_roles(ctx)
     rep = ctx.rep
     f = rr.f
     g = rr.g
     dom = ctx.dom(g, g.entry)
     stores = []
+    # the variable that carries the line found in the traceback into self.failed_tb_lineno
+    carriers = set()
     for n in g.nodes:
-        if n.kind == 'stmt' and isinstance(n.ast, ast.Assign) and not n.dup and isinstance(n.ast.value, ast.Attribute) and n.ast.value.attr == 'tb_lineno' and rr.in_loop(n):
-            stores.append(n)
-    rep.floor('C08.R2', 'stores of a traceback line number in RUN', len(stores), 1)
+        if n.kind == 'stmt' and isinstance(n.ast, ast.Assign) and not n.dup and rr.in_loop(n) and isinstance(n.ast.value, ast.Name) and \
+                any(field_name(t, 'self') == 'self.failed_tb_lineno' for t in n.ast.targets):
+            carriers.add(n.ast.value.id)
+    for n in g.nodes:
+        if n.kind == 'stmt' and isinstance(n.ast, ast.Assign) and not n.dup and rr.in_loop(n):
+            v = n.ast.value
+            tb_loops = [fr for fr in n.frames if fr.kind == 'loop' and fr.stmt is not rr.loop.ast]
+            if isinstance(v, ast.Attribute) and v.attr == 'tb_lineno':
+                stores.append(n)
+            elif tb_loops and any(is_name(t, c) for t in n.ast.targets for c in carriers) and not (isinstance(v, ast.Constant) and v.value is None):
+                # a store of the carried line inside the traversal loop that is not <entry>.tb_lineno
+                rep.ob(rule, ctx.loc(f, n.ast), ctx.src(n.ast), False,
+                       'the failing line is not the tb_lineno of the traceback entry: a frame\'s f_lineno is the line that frame executed LAST (a finally body, the re-raise), '
+                       'not the line the exception passed through', anchor=RUN)
+    if not stores and not carriers:
+        rep.floor(rule, 'stores of a traceback line number in RUN', len(stores), 1)
+    for n in stores:
+        tb_loops = [fr for fr in n.frames if fr.kind == 'loop' and fr.stmt is not rr.loop.ast]
+        if tb_loops and isinstance(tb_loops[-1].stmt, ast.For) and isinstance(tb_loops[-1].stmt.target, ast.Name):
+            okv = is_name(n.ast.value.value, tb_loops[-1].stmt.target.id)
+            rep.ob(rule, ctx.loc(f, n.ast), 'line of the traversed entry', okv, ctx.src(n.ast) if okv else 'tb_lineno is read from another object than the entry being traversed', nontrivial=False, anchor=RUN)
     for n in stores:
         facts = graph.guard_facts(dom, n)
         ok = False
@@ -295,19 +315,19 @@ def r2_first_frame(ctx):
             if isinstance(e, ast.Compare) and len(e.ops) == 1 and isinstance(e.ops[0], ast.Eq) and fa.polarity is True:
                 if any(field_name(s, 'self') == 'self._partfilename' for s in (e.left, e.comparators[0])):
                     ok = True
-        rep.ob('C08.R2', ctx.loc(f, n.ast), ctx.src(n.ast), ok,
+        rep.ob(rule, ctx.loc(f, n.ast), ctx.src(n.ast), ok,
                'the line is taken only from a frame whose file is the part file' if ok else 'the failing line can be taken from a frame that is not doctest code (guards: %s)' % fmt_facts(facts), anchor=RUN)
         loops = [fr for fr in n.frames if fr.kind == 'loop' and fr.stmt is not rr.loop.ast]
         need(loops, 'C08.R2: traceback traversal loop not found')
         head = loops[-1].head
         p = graph.path(n.nsucc(), lambda x: x is head, efilter=graph.normal_only)
-        rep.ob('C08.R2', ctx.loc(f, n.ast), 'traversal stops at the first matching frame', p is None,
+        rep.ob(rule, ctx.loc(f, n.ast), 'traversal stops at the first matching frame', p is None,
                'no path leads from the store back to the traversal loop: the outermost doctest frame wins' if p is None else
                'the traversal continues after a matching frame: the innermost doctest frame (a helper defined earlier) wins and the reported line is wrong',
                anchor=RUN)
         it = head.ast.iter
         okc = isinstance(it, ast.Call) and ctx.res.resolve_call(f, it)[0] == 'repo' and ctx.res.resolve_call(f, it)[1][0].qualname == 'xdoctest.doctest_example._traverse_traceback'
-        rep.ob('C08.R2', ctx.loc(f, head.ast), 'frames come from _traverse_traceback', okc, ctx.src(it), nontrivial=False, anchor=RUN)
+        rep.ob(rule, ctx.loc(f, head.ast), 'frames come from _traverse_traceback', okc, ctx.src(it), nontrivial=False, anchor=RUN)
     # _traverse_traceback yields its argument first
     ft = ctx.func('xdoctest.doctest_example._traverse_traceback')
     gt = ctx.cfg(ft)
@@ -328,7 +348,7 @@ def r2_first_frame(ctx):
     domt = ctx.dom(gt, gt.entry)
     all_y = [n for n in gt.nodes if n.kind == 'stmt' and any(isinstance(y, ast.Yield) for y in ast.walk(n.ast))]
     ok = from_param(yn, yv) and all(domt.dominates(yn, y) for y in all_y)
-    rep.ob('C08.R2', ctx.loc(ft, yn.ast), ctx.src(yn.ast), ok,
+    rep.ob(rule, ctx.loc(ft, yn.ast), ctx.src(yn.ast), ok,
            'the traversal yields the outermost traceback entry before following tb_next' if ok else 'the traversal does not start with the outermost entry', anchor=ft.qualname)
 
 
@@ -519,6 +539,7 @@ SA = 'xdoctest/static_analysis.py'
 CO = 'xdoctest/core.py'
 PA = 'xdoctest/parser.py'
 VARIANTS = [
+    fire('line-from-frame-f_lineno', 'C08.R2', ('xdoctest/doctest_example.py', "                            found_lineno = sub_tb.tb_lineno\n", "                            found_lineno = sub_tb.tb_frame.f_lineno\n")),
     fire('gotwant-offset-off-by-one', 'C08.R1', (DE, "                offset += self.failed_part.n_exec_lines + 1\n", "                offset += self.failed_part.n_exec_lines\n")),
     fire('offset-missing-minus-one', 'C08.R1', (DE, "            offset -= 1\n            return offset\n", "            return offset\n")),
     fire('tb-lineno-dropped', 'C08.R1', (DE, "                offset += self.failed_tb_lineno\n", "                offset += 1\n")),
